@@ -80,6 +80,10 @@ def bounded_unitary(which):
         Q = (M / m, N / n)
         if M * n == N * m and rng.random() < 0.5:
             Q = M / m                             # the scalar calling convention
+        if rng.random() < 0.5:
+            # the same geometry used first in single precision: a double-precision call afterwards must not inherit anything from it
+            for fw in (ft.mdft.dft2, ft.czt.czt2):
+                fw(f.astype(np.complex64), Q, (M, N))
         for fw, bw, tag in ((ft.mdft.dft2, ft.mdft.idft2, 'mdft'), (ft.czt.czt2, ft.czt.iczt2, 'czt')):
             F = fw(f, Q, (M, N))
             check(tag + '-energy', bool(np.isclose(E(F), E(f), **tight)))
@@ -113,5 +117,13 @@ def bounded_unitary(which):
                 check('wf-roundtrip-%d' % prec, bool(np.allclose(back.data, f, atol=1e-4 if prec == 32 else 1e-9)))
                 fs = W.free_space(10.0, Q=1)
                 check('wf-free-space-energy-%d' % prec, bool(np.isclose(E(fs.data), E(f), rtol=1e-4 if prec == 32 else 1e-9)))
+                # the methods at a padding factor other than their default
+                fs2 = W.free_space(25.0, Q=2)
+                check('wf-free-space-energy-Q2-%d' % prec, bool(np.isclose(E(fs2.data), E(f), rtol=1e-4 if prec == 32 else 1e-9)))
+                back2 = fs2.free_space(-25.0, Q=1)
+                g2 = ft.pad2d(f, Q=2)
+                check('wf-free-space-inverse-Q2-%d' % prec, bool(back2.data.shape == g2.shape and np.allclose(back2.data, g2, atol=1e-4 if prec == 32 else 1e-8)))
+                F2 = W.focus(100.0, Q=2)
+                check('wf-focus-energy-Q2-%d' % prec, bool(np.isclose(E(F2.data), E(f), rtol=1e-4 if prec == 32 else 1e-9)))
             finally:
                 conf.precision = old
